@@ -1349,8 +1349,6 @@ def run(rep, tier):
         mo = big_model[i] if big_model else None
         if res["st"] == "skipped":
             continue
-        if mo and mo[0] == 9 and res["st"] == "ok" and res.get("t", 0) <= PROMPT_S:
-            fl.broken_tie(f"concrete EXP {a} ** {e}: the model's work measure predicts an integer of {mo[1]} bits (not prompt), the implementation answered in {res.get('t')}s", c)
         if res["st"] == "timeout":
             fl.failing_input(f"concrete EXP {a} ** {e}: HalmosBitVec.exp did not return within {BIG_EXP_CPU_S} CPU seconds (killed); EVM result is {want}"
                              + (f"; the regenerated work measure predicts an integer of {mo[1]} bits" if mo and mo[0] == 9 else ""), c, sig)
